@@ -31,6 +31,7 @@ flags_for() {
     plain) echo "g++ -O2 -g1 -DNDEBUG" ;;   # NDEBUG as in the repository's default Release build
     asan)  echo "clang++ -O1 -g -fno-omit-frame-pointer -fsanitize=address -fsanitize=$UBSAN_CHECKS -fno-sanitize-recover=all" ;;
     tsan)  echo "clang++ -O1 -g -fno-omit-frame-pointer -fsanitize=thread" ;;
+    real)  echo "g++ -O2 -g1 -DNDEBUG" ;;    # the simulator as shipped: WITHOUT -DBLOCH_VERIF, i.e. with its own std::mt19937 (engine rngreal)
     *) echo "unknown flavour $1" >&2; exit 2 ;;
   esac
 }
@@ -48,6 +49,7 @@ link_extra() {
     clirun) echo "$GC_WRAPS -lpthread" ;;
     fssim)  echo "-lpthread" ;;
     updsim) echo "-Wl,--wrap=_ZNSt6chrono3_V212system_clock3nowEv -Wl,--wrap=system -lcrypto -lpthread" ;;
+    rngreal) echo "-Wl,--wrap=_ZNSt13random_device9_M_getvalEv -lpthread" ;;
   esac
 }
 # engine -> needs repo objects?
@@ -87,10 +89,14 @@ build_one() {
   local bin="$dir/$engine-$hkey"
   cc="$(flags_for "$flavour")"
   local common="-std=c++20 -DBLOCH_VERIF -I$SRC -I$VERIF -fno-access-control -Wno-deprecated-declarations"
+  if [ "$flavour" = "real" ]; then common="-std=c++20 -I$SRC -I$VERIF -fno-access-control -Wno-deprecated-declarations"; fi
+  if [ "$engine" = "rngreal" ] && [ "$flavour" != "real" ]; then echo "rngreal is built in flavour 'real' only" >&2; exit 2; fi
+  if [ "$flavour" = "real" ] && [ "$engine" != "rngreal" ]; then echo "flavour 'real' is for rngreal only" >&2; exit 2; fi
   local objs=()
   if needs_repo_objs "$engine"; then
     for tu in "${REPO_TUS[@]}"; do
       if [ "$tu" = "bloch/cli/cli.cpp" ] && [ "$engine" != "clirun" ] && [ "$engine" != "qhist" ]; then continue; fi
+      if [ "$engine" = "rngreal" ] && [ "$tu" != "bloch/runtime/qasm_simulator.cpp" ]; then continue; fi
       objs+=("$dir/$(echo "$tu" | tr '/' '_' | sed 's/\.cpp$/.o/')")
     done
     (
@@ -98,6 +104,7 @@ build_one() {
       pids=()
       for tu in "${REPO_TUS[@]}"; do
         o="$dir/$(echo "$tu" | tr '/' '_' | sed 's/\.cpp$/.o/')"
+        if [ "$engine" = "rngreal" ] && [ "$tu" != "bloch/runtime/qasm_simulator.cpp" ]; then continue; fi
         if [ ! -f "$o" ]; then
           ( $cc $common -DBLOCH_VERSION='"1.2.3"' -DBLOCH_COMMIT_HASH='"verif"' -c "$SRC/$tu" -o "$o.tmp" && mv "$o.tmp" "$o" ) &
           pids+=($!)
@@ -132,6 +139,7 @@ ALL_TARGETS=(
   "clirun plain"
   "fssim plain"
   "updsim plain"
+  "rngreal real"
 )
 
 if [ "${1:-}" = "all" ]; then
